@@ -1276,8 +1276,26 @@ def run_e2e(case, res):
         res.tag('e2emix:listed_first=%s' % feats['grouped'][0])
     for k in ('style', 'gap', 'regroup', 'n_groups', 'types', 'lin_cp'):
         res.tag('e2e:%s=%s' % (k, feats[k]))
+    n_tp = int(case.get('n_tp', 1))
     with drive.scratch() as d, Hooks() as hk:
         path = gen.render(P, d)
+        tp_power = [{int(k): gen.expected_power(P, int(k))['total']
+                     for k in P['power']['asm']}]
+        if n_tp > 1:
+            names = ['power.csv']
+            for i in range(1, n_tp):
+                Qi = copy.deepcopy(P)
+                for sp in Qi['power']['asm'].values():
+                    sp['total'] = sp['total'] * float(rng.uniform(0.4, 1.6))
+                nm = 'power_tp%d.csv' % (i + 1)
+                gen.write_power_csv(Qi, os.path.join(d, nm))
+                names.append(nm)
+                tp_power.append({int(k): gen.expected_power(Qi, int(k))[
+                    'total'] for k in Qi['power']['asm']})
+            txt = open(path).read().replace('user_power = power.csv',
+                                            'user_power = ' + ', '.join(names))
+            open(path, 'w').write(txt)
+            res.tag('e2e:timepoints=%d' % n_tp)
         try:
             inp = drive.read_input(path)
         except drive.Rejected as e:
@@ -1285,6 +1303,23 @@ def run_e2e(case, res):
             res.tag('rejected:input')
             return res
         cons.attach(hk, applied=True)
+
+        def power_post(args, kwargs, out, tok):
+            # the power the optimiser works with is, per assembly, the
+            # average over the time points of the power the INPUT files give
+            o = args[0]
+            pw = np.asarray(o._power, dtype=float)
+            for aid, got in pw:
+                exp = float(np.mean([tp[int(aid)] for tp in tp_power]))
+                res.close('T1_cycle_average_power_from_inputs', got - exp,
+                          abs(exp) + 1e-12, 1e-9,
+                          'power of assembly %d used by the optimiser is not '
+                          'the average over the %d time points of the input '
+                          'power distributions' % (int(aid), len(tp_power)),
+                          dict(key, n_tp=len(tp_power)),
+                          {'got': float(got), 'exp': exp,
+                           'per_timepoint': [tp[int(aid)] for tp in tp_power]})
+        hk.wrap(Orificing, '_get_power', post=power_post)
         if limit_mode == 'probe':
             # set a pressure-drop limit once the parametric tables exist:
             # a fraction of the pressure drop at the hottest nominal flow
@@ -1324,7 +1359,7 @@ def run_e2e(case, res):
             res.status('rejected', 'optimize: error exit')
         except Exception as e:   # noqa
             crashed(res, 'optimize', e, cons, key)
-        if not mixed and res.d['status'] == 'ok' and \
+        if not mixed and res.d['status'] == 'ok' and n_tp == 1 and \
                 case['seed'][-1] % 2 == 0:
             # a second optimisation in the SAME directory with other
             # settings (group count, outlet target; results of the first
@@ -1402,9 +1437,14 @@ def cases(tier, seed):
     for i in range(16 if q else 128):
         out.append({'name': 'e2emix-%d' % i, 'kind': 'e2emix',
                     'seed': [seed, 5, i]})
+    for i in range(5 if q else 80):
+        # several time points whose power distributions are not
+        # proportional to one another
+        out.append({'name': 'e2etp-%d' % i, 'kind': 'e2etp',
+                    'n_tp': 2 + i % 2, 'seed': [seed, 6, i]})
     # long cases first so the pool drains evenly
-    out.sort(key=lambda c: {'e2e': 0, 'e2emix': 0, 'enum': 1, 'group': 2,
-                            'hist': 3, 'fixed': 4}[c['kind']])
+    out.sort(key=lambda c: {'e2e': 0, 'e2emix': 0, 'e2etp': 0, 'enum': 1,
+                            'group': 2, 'hist': 3, 'fixed': 4}[c['kind']])
     return out
 
 
